@@ -2,7 +2,8 @@
 
 Theorems: Props/C15.v (C15_triples, C15_delivered_once, C15_cache_same_result,
 C15_cache_log_partial, C15_equals_local_partial; regression examples of the repaired
-findings F1, F2, F4, F5; *_refuted witnesses for the known findings F3, F6).
+findings F1, F2, F4, F5; *_refuted witnesses for the known findings F3, F6, F7, F8, F9, F10, each with the
+regression example of its repair stated under the generated flag).
 
 The endpoint is an in-process fake: ``shexer.io.sparql.query._query_endpoint_json_result``
 is replaced by a function that lets rdflib evaluate the query text on the served
@@ -219,11 +220,12 @@ def _abs_node(x):
     return ("?", repr(x))
 
 
-def target_kwargs(mode):
+def target_kwargs(mode, spelling=None):
     """mode = ('classes', [iris]) | ('all',) | ('map', [items]); item = ('node', n) | ('focusS', p, o|None) |
-    ('focusO', s|None, p), each with a label"""
+    ('focusO', s|None, p), each with a label.  spelling: the target classes as the user writes them (full IRI,
+    <IRI> or prefixed name of cfg['ns']), parallel to mode[1]"""
     if mode[0] == "classes":
-        return dict(target_classes=list(mode[1]), all_classes_mode=False)
+        return dict(target_classes=list(spelling or mode[1]), all_classes_mode=False)
     if mode[0] == "all":
         return dict(target_classes=None, all_classes_mode=True)
     lines = []
@@ -246,12 +248,17 @@ def _warm_up():
     """rdflib builds its SPARQL grammar on first use (seconds under load): do it outside the timed region"""
     global _WARM
     if not _WARM:
+        import logging
         import rdflib
+        # a literal answered by {_ p FOCUS} becomes URIRef(lexical form) in the fetch (outside the domain): rdflib logs
+        # "... does not look like a valid URI" for each; keep the check's output readable
+        logging.getLogger("rdflib.term").setLevel(logging.ERROR)
         list(rdflib.Graph().query("SELECT ?s WHERE { ?s ?p ?o . FILTER (!isBlank(?s)) } LIMIT 1"))
         _WARM = True
 
 
-def run_endpoint(ts, order, mode, cfg, cache, limit=-1, per_query_shuffle=None, timeout=60.0, flip_repeats=False):
+def run_endpoint(ts, order, mode, cfg, cache, limit=-1, per_query_shuffle=None, timeout=60.0, flip_repeats=False,
+                 spelling=None):
     """one real extraction against the fake endpoint.
     -> dict(out, log, passes=[[delivered triples]...], collected=[[targets]...], monitor, sel_answers)"""
     import shexer.io.sparql.query as Q
@@ -277,7 +284,7 @@ def run_endpoint(ts, order, mode, cfg, cache, limit=-1, per_query_shuffle=None, 
         return r
 
     kw = pipe.shaper_kwargs(cfg)
-    kw.update(target_kwargs(mode))
+    kw.update(target_kwargs(mode, spelling))
     kw.update(url_endpoint=URL, disable_endpoint_cache=not cache, limit_remote_instances=limit)
     k, m = cfg["thr"]
     old_q = Q._query_endpoint_json_result
@@ -303,10 +310,44 @@ def run_endpoint(ts, order, mode, cfg, cache, limit=-1, per_query_shuffle=None, 
             "monitor": fake.monitor, "sel_answers": fake.sel_answers, "texts": fake.texts}
 
 
-def run_local(ts, mode, cfg, timeout=60.0):
-    extra = target_kwargs(mode)
+def nt_escape(x):
+    """the abstract term with its lexical form written as N-Triples needs it (backslash and double quote escaped)"""
+    if x[0] != "L" or not ('"' in x[1] or "\\" in x[1]):
+        return x
+    return (x[0], x[1].replace("\\", "\\\\").replace('"', '\\"')) + tuple(x[2:])
+
+
+def nt_doc(ts):
+    return pipe.nt_doc([(s, p, nt_escape(o)) for s, p, o in ts])
+
+
+def run_local(ts, mode, cfg, timeout=60.0, spelling=None):
+    extra = target_kwargs(mode, spelling)
     c = dict(cfg)
-    return pipe.impl_shexc(ts, c, extra_kw=extra, timeout=timeout)
+    return pipe.impl_shexc(ts, c, doc=nt_doc(ts), extra_kw=extra, timeout=timeout)
+
+
+_FLAGS = None
+
+
+def tree_flags():
+    """which text of the repaired functions is in the tree under test, read from the Gen/Consts*.v that the build has
+    just regenerated from it: token = the cache stores the literal of the token (C15-F7/F8 repaired), all_tau =
+    all_classes_mode lists the classes of the instantiation property (C15-F9 repaired), kw_once = the selector parser
+    removes the leading keyword only (C15-F10 repaired).  A missing flag reads as 'not repaired'."""
+    global _FLAGS
+    if _FLAGS is None:
+        out = {}
+        for key, fn, name in (("token", "ConstsC15.v", "lsg_token_literal"), ("all_tau", "ConstsC15.v", "all_classes_passes_tau"),
+                              ("kw_once", "Consts.v", "c_sel_sparql_strip_once")):
+            try:
+                with open(os.path.join(core.ROCQ, "theories", "Gen", fn)) as f:
+                    m = re.search(r"^Definition %s : bool := (true|false)\.$" % name, f.read(), re.M)
+            except OSError:
+                m = None
+            out[key] = bool(m) and m.group(1) == "true"
+        _FLAGS = out
+    return _FLAGS
 
 
 # --------------------------------------------------------------------------
@@ -351,7 +392,8 @@ def model_table(ts, order, mode, cfg, cache, limit, collected):
 
 def parse_model(out):
     """-> dict(ok, dom, log, passes={1: [...], 2: [...]}, err)"""
-    res = {"ok": out[0][0] == "ok", "dom": out[0][1] == "1", "log": [], "passes": {"1": [], "2": []}, "err": None}
+    res = {"ok": out[0][0] == "ok", "dom": out[0][1] == "1", "names": len(out[0]) > 2 and out[0][2] == "1",
+           "log": [], "passes": {"1": [], "2": []}, "err": None}
     for r in out[1:]:
         if r[1] == "Q":
             res["log"].append((r[2], r[3]))
@@ -466,6 +508,113 @@ def gen_case_graph(r, in_domain):
     return out
 
 
+KW = "SPARQL"
+TAUS = ["http://ex.org/isA", "http://ex.org/kind#of", "http://ex.org/SPARQLtype"]
+QUOTED = ['"a"', '"b"', '"a" c', '"', 'a"b', '']
+
+
+def plant_twins(r, ts, tau):
+    """several literals of one (subject, predicate) that a reader must keep apart: the same lexical form under different
+    language tags; lexical forms that share the text before an embedded double quote (plain, language-tagged or typed);
+    the two together.  Valid RDF: distinct terms, one statement each."""
+    subs = sorted({s for s, p, o in ts if s[0] == "I"})
+    props = sorted({p for s, p, o in ts if p not in (tau, RDF_TYPE)}) or ["http://ex.org/p0"]   # never a typing property
+    if not subs:
+        return ts, None
+    s, p = r.choice(subs), r.choice(props)
+    kind = r.choice(["lang", "lang", "quote", "quote", "both"])
+    new = []
+    if kind in ("lang", "both"):
+        lex = r.choice(["chat", "v1", "x y", "a@b"])
+        for tag in r.sample(["en", "fr", "es", "en-GB", "de-CH-1996"], r.randint(2, 3)):
+            new.append((s, p, ("L", lex, LANGSTRING, tag)))
+    if kind in ("quote", "both"):
+        stem = r.choice(["x ", "say ", "", "v1"])
+        shape = r.choice(["plain", "plain", "lang", "typed"])
+        for q in r.sample(QUOTED, r.randint(2, 3)):
+            lex = stem + q
+            o = ("L", lex, STRING) if shape == "plain" else ("L", lex, LANGSTRING, "en") if shape == "lang" \
+                else ("L", lex, "http://ex.org/dt")
+            new.append((s, p, o))
+    seen = set(ts)
+    out = list(ts)
+    for t in new:
+        if t not in seen:
+            seen.add(t)
+            out.insert(r.randint(0, len(out)), t)
+    return out, kind
+
+
+def rename(ts, ren):
+    f = lambda x: ("I", ren[x[1]]) if x[0] == "I" and x[1] in ren else x
+    out, seen = [], set()
+    for s, p, o in ts:
+        t = (f(s), ren.get(p, p), f(o))
+        if t not in seen:
+            seen.add(t)
+            out.append(t)
+    return out
+
+
+def plant_names(r, ts, cfg, kind):
+    """an instantiation property other than rdf:type (some rdf:type statements stay: ordinary statements then); class,
+    predicate and node IRIs that hold the keyword of the SPARQL selectors.  -> (ts, tags)"""
+    tags = []
+    k = r.random()
+    if k < 0.22:
+        tau = r.choice(TAUS if kind != "map" else TAUS[:2] + TAUS)
+        keep = r.random() < 0.5          # half of the time some statements keep rdf:type
+        out = []
+        for s, p, o in ts:
+            out.append((s, tau, o) if p == RDF_TYPE and not (keep and r.random() < 0.3) else (s, p, o))
+        ts = out
+        cfg["tau"] = tau
+        tags.append("custom_tau")
+    if r.random() < 0.2:
+        classes = sorted(pipe.class_sizes(ts, cfg["tau"]))
+        props = sorted({p for s, p, o in ts if p != cfg["tau"] and p != RDF_TYPE})
+        nodes = sorted({s[1] for s, p, o in ts if s[0] == "I"})
+        ren = {}
+        what = r.choice(["class", "class", "class+twin", "pred", "node", "all"])
+        if what in ("class", "class+twin", "all") and classes:
+            c = r.choice(classes)
+            local = c.rsplit("/", 1)[-1]
+            others = [x for x in classes if x != c]
+            if what == "class+twin" and others:
+                # the name without the keyword is another class of the graph
+                ren[c] = r.choice(["http://ex.org/%s%s", "http://ex.org/%s%s"]) % (KW, r.choice(others).rsplit("/", 1)[-1])
+            else:
+                ren[c] = r.choice(["http://ex.org/" + KW + local, "http://ex.org/" + local + KW, "http://ex.org/" + KW,
+                                   "http://ex.org/" + local[:1] + KW + local[1:]])
+        if what in ("pred", "all") and props:
+            q = r.choice(props)
+            ren[q] = "http://ex.org/" + KW + q.rsplit("/", 1)[-1]
+        if what in ("node", "all") and nodes:
+            n = r.choice(nodes)
+            ren[n] = "http://ex.org/n" + KW + n.rsplit("/", 1)[-1].replace(":", "_")[-3:]
+        ren = {a: b for a, b in ren.items() if b not in classes and b not in nodes and b not in props}
+        if ren:
+            ts = rename(ts, ren)
+            tags.append("kw_" + what)
+    return ts, tags
+
+
+NS_EX = ("http://ex.org/", "ex")
+NS_MORE = [("http://xmlns.com/foaf/0.1/", "foaf"), (XSD, "xsd"), ("http://ex.org/voc/", "voc"), ("urn:ex:", "u")]
+
+
+def spell_class(r, c, ns):
+    """a class IRI as a user may hand it over: bare, <bracketed>, or prefix:local with a declared prefix"""
+    k = r.random()
+    if k < 0.5:
+        for n, p in ns:
+            if c.startswith(n) and c[len(n):] and not re.search(r"[/#]", c[len(n):]):
+                return "%s:%s" % (p, c[len(n):])
+    if k < 0.75:
+        return "<%s>" % c
+    return c
+
+
 def gen_mode(r, ts, tau, kind):
     classes = sorted(pipe.class_sizes(ts, tau))
     if kind == "classes":
@@ -539,7 +688,46 @@ def root_causes(ts, mode, cfg, limit, T, flip=False):
         rcs.add("rc_no_class")
     if flip and mode[0] != "map" and (limit >= 0 or cfg["cap"] > 0):
         rcs.add("rc_limit_two_selects")     # the endpoint lists the instances in another order the second time
+    fl = tree_flags()
+    if not fl["token"]:
+        # what RdflibSgraph.add_triple keeps of a literal: the content up to its first inner quote and the type the
+        # local path gives it; two different literals of one (subject, predicate) with one such key are one node
+        by = collections.defaultdict(list)
+        for s, p, o in dict.fromkeys(ts):
+            if o[0] == "L":
+                lang = o[3] if len(o) > 3 and o[3] else None
+                by[(s, p, o[1].split('"')[0], LANGSTRING if lang else o[2])].append((o[1], lang))
+        for lits in by.values():
+            if len(lits) > 1:
+                if len({lex for lex, _ in lits}) < len(lits):
+                    rcs.add("rc_cache_lang_merge")        # the same lexical form under several language tags
+                if len({lex for lex, _ in lits}) > 1:
+                    rcs.add("rc_cache_quote_merge")       # lexical forms that differ after an embedded quote only
+    if not fl["all_tau"] and mode[0] == "all" and tau != RDF_TYPE:
+        rcs.add("rc_all_classes_default_tau")
+    if not fl["kw_once"] and mode[0] != "map":
+        tau_used = tau if (fl["all_tau"] or mode[0] != "all") else RDF_TYPE
+        names = [tau] + (list(mode[1]) if mode[0] == "classes" else
+                         [o[1] for _, p, o in ts if p == tau_used and o[0] == "I"])
+        if any(KW in x for x in names):
+            rcs.add("rc_sparql_kw_in_class_selector")
     return rcs
+
+
+def names_domain(ts, mode, cfg):
+    """mirror of Model.Endpoint.C15_names_dom (the harness's own reading, compared with the model's on every case)"""
+    fl = tree_flags()
+    tau = cfg["tau"]
+    strip = (lambda x: x) if fl["kw_once"] else (lambda x: x.replace(KW, ""))
+    if mode[0] == "map":
+        return True
+    if strip(tau) != tau:
+        return False
+    if mode[0] == "classes":
+        return all(strip(c) == c for c in mode[1])
+    if not fl["all_tau"] and tau != RDF_TYPE:
+        return False
+    return all(strip(o[1]) == o[1] for _, p, o in ts if p == tau)
 
 
 def compare_evidence(a, b, ties, kls):
@@ -691,13 +879,14 @@ def _run_case(case):
     ts, order, mode, cfg, limit = case["ts"], case["order"], case["mode"], case["cfg"], case["limit"]
     runs = {}
     for cache in (True, False):
-        runs[cache] = run_endpoint(ts, order, mode, cfg, cache, limit, flip_repeats=case.get("flip", False))
+        runs[cache] = run_endpoint(ts, order, mode, cfg, cache, limit, flip_repeats=case.get("flip", False),
+                                   spelling=case.get("spelling"))
     T = oracle_targets(ts, mode, cfg, runs[True], limit)
     limited = mode[0] != "map" and (limit >= 0 or cfg["cap"] > 0)
     local = local_T = gT = None
     note = None
     if not limited:
-        local = run_local(ts, mode, cfg)           # instances_cap: "a positive value" caps; 0 does not (README)
+        local = run_local(ts, mode, cfg, spelling=case.get("spelling"))   # instances_cap: "a positive value" caps; 0 does not (README)
     elif any(q[0] == "other" for q in runs[True]["log"] + runs[False]["log"]):
         note = "unrecognised_query"                # the instances the endpoint returned are not known to the oracle
     else:
@@ -710,14 +899,14 @@ def _run_case(case):
             if any(v > cfg["cap"] for v in sizes.values()):
                 note = "cap_order_dependent"       # which instances the tracker keeps depends on delivery order
             else:
-                local_T = run_local(gT, mode, cfg)
+                local_T = run_local(gT, mode, cfg, spelling=case.get("spelling"))
         else:
-            local_T = run_local(gT, mode, cfg)
+            local_T = run_local(gT, mode, cfg, spelling=case.get("spelling"))
     fails, nitems = oracle(case, runs, local, local_T, gT if local_T is not None else None)
     rcs = sorted(root_causes(ts, mode, cfg, limit, T, case.get("flip", False)))
     res = {"fails": fails, "rcs": rcs, "nitems": nitems, "note": note, "corr": [], "unmodelled": 0,
            "monitor": runs[True]["monitor"] + runs[False]["monitor"], "vm": [],
-           "syntactic_domain": syntactic_domain(ts, cfg["tau"]),
+           "syntactic_domain": syntactic_domain(ts, cfg["tau"]), "names_domain": names_domain(ts, mode, cfg),
            "outcomes": [runs[True]["out"][0] if runs[True]["out"][0] == "ok" else runs[True]["out"][1],
                         runs[False]["out"][0] if runs[False]["out"][0] == "ok" else runs[False]["out"][1]],
            "queries": (len(runs[True]["log"]), len(runs[False]["log"])),
@@ -729,6 +918,7 @@ def _run_case(case):
                 res["unmodelled"] += 1
                 continue
             res["model_dom"] = m["dom"]
+            res["model_names"] = m["names"]
             if not ok:
                 res["corr"].append({"cache": cache, "why": why, "model_log": m["log"], "real_log": runs[cache]["log"],
                                     "model_passes": m["passes"], "real_passes": runs[cache]["passes"],
@@ -754,7 +944,21 @@ def gen_cases(tier, rnd, n):
         cfg["inverse_paths"] = bool((i // 3) % 2)
         cfg["thr"] = r.choice([(0, 1), (0, 1), (1, 2), (1, 1)])
         kind = kinds[i % 3]
+        r2 = random.Random(r.getrandbits(48))       # the plants draw from their own stream
+        ts, planted = plant_names(r2, ts, cfg, kind)
+        if r2.random() < 0.22:
+            ts, twin = plant_twins(r2, ts, cfg["tau"])
+            if twin:
+                planted.append("twins_" + twin)
         mode = gen_mode(r, ts, cfg["tau"], kind)
+        spelling = None
+        if r2.random() < 0.35:
+            # the user declares prefixes and may write the target classes with them (or between angle brackets)
+            cfg["ns"] = [NS_EX] + [n for n in NS_MORE if r2.random() < 0.5]
+            r2.shuffle(cfg["ns"])
+            if mode[0] == "classes":
+                spelling = [spell_class(r2, c, cfg["ns"]) for c in mode[1]]
+                planted.append("class_spelling")
         if in_dom and mode[0] == "map":
             mode = ("map", [it for it in mode[1] if it[0] != "focusO"] or [("node", "http://ex.org/n0")])
         limit = -1
@@ -771,13 +975,15 @@ def gen_cases(tier, rnd, n):
         if i % 2:
             r.shuffle(order)
         cases.append({"ts": ts, "order": order, "mode": mode, "cfg": cfg, "limit": limit, "i": i,
-                      "stream": "domain" if in_dom else "out-of-domain", "keep_vm": False})
+                      "stream": "domain" if in_dom else "out-of-domain", "keep_vm": False, "planted": planted,
+                      "spelling": spelling})
     return cases
 
 
 def case_json(case):
     return {"ts": [[list(s), p, list(o)] for s, p, o in case["ts"]], "order": case["order"],
-            "mode": case["mode"], "cfg": case["cfg"], "limit": case["limit"], "flip": case.get("flip", False)}
+            "mode": case["mode"], "cfg": case["cfg"], "limit": case["limit"], "flip": case.get("flip", False),
+            "spelling": case.get("spelling")}
 
 
 def case_from_json(d):
@@ -792,7 +998,7 @@ def case_from_json(d):
     cfg["thr"] = tuple(cfg["thr"])
     cfg["ns"] = [tuple(x) for x in cfg.get("ns", [])]
     return {"ts": [(tuple(s), p, tuple(o)) for s, p, o in d["ts"]], "order": list(d["order"]), "mode": mode, "cfg": cfg,
-            "limit": d["limit"], "flip": d.get("flip", False), "keep_vm": False}
+            "limit": d["limit"], "flip": d.get("flip", False), "keep_vm": False, "spelling": d.get("spelling")}
 
 
 def load_corpus():
@@ -811,7 +1017,31 @@ def load_corpus():
 
 
 FINDING_OF = {"rc_literal_reader": "C15-F1", "rc_inverse_double": "C15-F2", "rc_bnode": "C15-F3",
-              "rc_cap_zero": "C15-F4", "rc_no_class": "C15-F5", "rc_limit_two_selects": "C15-F6"}
+              "rc_cap_zero": "C15-F4", "rc_no_class": "C15-F5", "rc_limit_two_selects": "C15-F6",
+              "rc_cache_lang_merge": "C15-F7", "rc_cache_quote_merge": "C15-F8",
+              "rc_all_classes_default_tau": "C15-F9", "rc_sparql_kw_in_class_selector": "C15-F10"}
+
+
+# which oracle failures a root cause can explain: a merge inside the cache shows with the cache ON only (against the
+# run without it, against the local run); the class-selector defects show against the local run, cache or not
+CACHE_ONLY = {"rc_cache_lang_merge", "rc_cache_quote_merge"}
+ENDPOINT_VS_LOCAL = {"rc_all_classes_default_tau", "rc_sparql_kw_in_class_selector"}
+
+
+def explained(rc, msg):
+    if rc in CACHE_ONLY:
+        return msg.startswith("cache on vs off: ") or msg.startswith("endpoint (cache True)")
+    if rc in ENDPOINT_VS_LOCAL:
+        return msg.startswith("endpoint (cache ")
+    return True
+
+
+def attribute(rcs, fails, known):
+    """the listed findings that explain ALL the failures of a case ([] = not explained: a violation)"""
+    present = [rc for rc in rcs if rc in known]
+    if present and all(any(explained(rc, m) for rc in present) for m in fails):
+        return [known[rc] for rc in present if any(explained(rc, m) for m in fails)]
+    return []
 
 
 def run(tier, seed, replay=None):
@@ -873,8 +1103,13 @@ def run(tier, seed, replay=None):
         vm_cases += res["vm"]
         if res["syntactic_domain"] and res.get("model_dom") is False:
             corr_fail.append((k, [{"why": "C15_dom is false on a graph of the property's syntactic domain"}]))
+        if "model_names" in res and res["model_names"] != res["names_domain"]:
+            corr_fail.append((k, [{"why": "C15_names_dom is %s, the harness reads %s" % (res["model_names"], res["names_domain"])}]))
+        stats["names_domain"] += bool(res["names_domain"])
+        for tag in case.get("planted") or []:
+            stats["planted_" + tag] += 1
         if res["fails"]:
-            hit = [known[rc] for rc in res["rcs"] if rc in known]
+            hit = attribute(res["rcs"], res["fails"], known)
             if hit:
                 for fid in hit[:1]:
                     known_hits[fid] += 1
@@ -905,7 +1140,7 @@ def run(tier, seed, replay=None):
     for k in spec_fail[:5]:
         res = results[k]
         run.violation("C15 fails on the implementation: %s" % res["fails"][0][:300],
-                      {"case": case_json(cases[k]), "document": pipe.nt_doc([cases[k]["ts"][i] for i in cases[k]["order"]]),
+                      {"case": case_json(cases[k]), "document": nt_doc([cases[k]["ts"][i] for i in cases[k]["order"]]),
                        "oracle_failures": res["fails"][:10], "root_causes_present": res["rcs"], "outputs": res.get("outputs")})
     if not spec_fail:
         if corr_fail:
@@ -914,7 +1149,7 @@ def run(tier, seed, replay=None):
                           "no longer checks",
                           {"broken": "correspondence c15_run: sequence of (kind, node) queries and delivered triples per pass",
                            "case": case_json(cases[k]), "first_disagreement": why[0], "n_disagreements": len(corr_fail),
-                           "document": pipe.nt_doc([cases[k]["ts"][i] for i in cases[k]["order"]]),
+                           "document": nt_doc([cases[k]["ts"][i] for i in cases[k]["order"]]),
                            "oracle": "the property oracle found no failing input among %d cases" % len(cases)},
                           failing_input=False)
         elif not proofs_ok:
@@ -932,7 +1167,12 @@ def run(tier, seed, replay=None):
         "rule": "regression cases of corpus/C15 first; then graphs from pipe.gen_graph (1-4 classes, 2-6 nodes, multi-typed "
                 "nodes, links between instances; some nodes renamed to urn: / mailto: IRIs) with IRI nodes and plain, typed "
                 "(integer, float, date, custom datatype; well- and ill-formed lexical forms, numeric- and IRI-looking "
-                "strings) and language-tagged literals (4 of 5 cases) or also with blank nodes (1 of 5) x {target_classes, "
+                "strings) and language-tagged literals (4 of 5 cases) or also with blank nodes (1 of 5); planted (own random "
+                "stream, counted under distribution.planted_*): several literals of one (subject, predicate) that differ only "
+                "in their language tag and / or only after an embedded double quote (22 %), an instantiation property other "
+                "than rdf:type, some rdf:type statements kept (22 %), class / predicate / node IRIs and instantiation "
+                "properties holding the keyword 'SPARQL', also where the name without it is another class (20 %) "
+                "x {target_classes, "
                 "all_classes_mode, shape map of node / FOCUS selectors} round-robin x inverse_paths x 2^6 inference switches "
                 "x limit_remote_instances / instances_cap in 1..3 (36 %) and instances_cap = 0 (5 %) x answers in document "
                 "order or shuffled (every other case) x cache on and off (both, every case); distinct = distinct (graph, "
@@ -942,6 +1182,7 @@ def run(tier, seed, replay=None):
         "outcome_distribution": dict(outcomes),
         "queries_cache_vs_nocache_total": [sum(a for a, _ in qsaved), sum(b for _, b in qsaved)],
         "known_finding_hits": dict(known_hits),
+        "tree_flags": tree_flags(),
         "corpus_cases_replayed_first": len([c for c in cases if c.get("corpus")]),
         "corpus_cases_failing": sorted({cases[k]["corpus"] for k in spec_fail if cases[k].get("corpus")}),
         "disagreements_model_vs_impl": len(corr_fail),
@@ -950,7 +1191,7 @@ def run(tier, seed, replay=None):
                                      "recorded query strings, the sequence of triples each pass of the yielder delivered "
                                      "(wrapped yield_triples), success / exception class; oracle inputs: answer order = "
                                      "ranking of the statements, set order = list returned by _collect_every_target_node",
-        "samples": [{"document": pipe.nt_doc([cases[i]["ts"][j] for j in cases[i]["order"]])[:1200], "mode": cases[i]["mode"],
+        "samples": [{"document": nt_doc([cases[i]["ts"][j] for j in cases[i]["order"]])[:1200], "mode": cases[i]["mode"],
                      "limit": cases[i]["limit"], "cap": cases[i]["cfg"]["cap"], "inverse": cases[i]["cfg"]["inverse_paths"],
                      "queries_cache_nocache": results[i]["queries"], "outcomes": results[i]["outcomes"]}
                     for i in (good[:1] + good[len(good) // 2:len(good) // 2 + 1] + good[-1:])],
